@@ -169,7 +169,7 @@ class Check:
             self.args.only = "^" + _re.escape(self.replay_of.get("obligation", "")) + "$"
         self.tier = self.args.tier
         global BUDGET_S
-        BUDGET_S = 600 if self.tier == "quick" else 3600
+        BUDGET_S = 300 if self.tier == "quick" else 3600
         self.seed = int(os.environ.get("VERIF_SEED", "0"))
         self.jobs = []
         self.results = []
@@ -235,12 +235,79 @@ class Check:
         if n == 1 or len(self.jobs) <= 1:
             self.results = [_run_one(j) for j in self.jobs]
         else:
-            global _JOBS
-            _JOBS = self.jobs
-            ctx = multiprocessing.get_context("fork")
-            with ctx.Pool(n, maxtasksperchild=1) as pool:   # one fork per obligation: solver state never leaks between obligations
-                self.results = pool.map(_run_idx, range(len(self.jobs)), chunksize=1)
+            self.results = self._run_forked(n)
         return self.results
+
+    def _run_forked(self, n):
+        """one forked process per obligation (solver state never leaks between obligations), at most n at a time, each with a hard deadline: the
+        in-process alarm cannot interrupt a solver call that ignores its timeout, so a worker that overruns its budget by a minute is killed and
+        its obligation reported inconclusive"""
+        import pickle
+        ctx = multiprocessing.get_context("fork")
+        results = [None] * len(self.jobs)
+        pending = list(range(len(self.jobs)))
+        running = {}          # idx -> (process, parent connection, start time)
+        hard = BUDGET_S + 60
+
+        def worker(idx, conn):
+            try:
+                r = _run_one(self.jobs[idx])
+                try:
+                    conn.send_bytes(pickle.dumps(r))
+                except Exception as e:          # unpicklable payload: send a reduced record
+                    r2 = Result(r.name)
+                    r2.status, r2.detail, r2.finding_key = r.status, (r.detail or "") + " [result not picklable: %s]" % e, r.finding_key
+                    conn.send_bytes(pickle.dumps(r2))
+            finally:
+                conn.close()
+                os._exit(0)
+        while pending or running:
+            while pending and len(running) < n:
+                idx = pending.pop(0)
+                pc, cc = ctx.Pipe(duplex=False)
+                pr = ctx.Process(target=worker, args=(idx, cc))
+                pr.start()
+                cc.close()
+                running[idx] = (pr, pc, time.time())
+            progressed = False
+            for idx in list(running):
+                pr, pc, t0 = running[idx]
+                if pc.poll(0):
+                    try:
+                        results[idx] = pickle.loads(pc.recv_bytes())
+                    except (EOFError, OSError):
+                        results[idx] = None
+                    pr.join(5)
+                    if pr.is_alive():
+                        pr.kill()
+                    pc.close()
+                    del running[idx]
+                    progressed = True
+                elif not pr.is_alive():
+                    pr.join()
+                    pc.close()
+                    del running[idx]
+                    progressed = True
+                elif time.time() - t0 > hard:
+                    pr.kill()
+                    pr.join()
+                    pc.close()
+                    r = Result(self.jobs[idx][0])
+                    r.status = "inconclusive"
+                    r.detail = "killed after %d s (the solver did not honour its time limit)" % int(time.time() - t0)
+                    r.wall_s = time.time() - t0
+                    results[idx] = r
+                    del running[idx]
+                    progressed = True
+            if not progressed:
+                time.sleep(0.02)
+        for idx, r in enumerate(results):
+            if r is None:
+                r = Result(self.jobs[idx][0])
+                r.status = "inconclusive"
+                r.detail = "worker process ended without a result"
+                results[idx] = r
+        return results
 
     def finish(self):
         if self.replay_of is not None:
